@@ -256,7 +256,14 @@ def run_wide_norm(ctx, stream, ncase, maxlen):
 def run_C14(ctx, proof_ok):
     a = run_core(ctx, 14, budget(ctx.tier, 200, 3000), maxlen=budget(ctx.tier, 30, 60), with_bloch=False)
     b = run_wide_norm(ctx, 114, budget(ctx.tier, 500, 15000), maxlen=budget(ctx.tier, 14, 30))
-    return merge_results(a, b, a["rule"] + " || norm search on the real code: random programs of T/Phi/P/E/D/SPOILER/shifts in all "
+    import ndc
+    ng, dg = ndc.search_axis_grids(lib.rng(1141), epg(), budget(ctx.tier, 50, 1200))
+    nh, dh = ndc.compare_grid_helpers(lib.rng(1142), epg(), budget(ctx.tier, 200, 4000))
+    ctx.violations.extend(dg + dh)
+    b["evaluations"] += ng + nh
+    b["distribution"] = {**b.get("distribution", {}), "axis_grid_cases": ng, "grid_helper_calls": nh}
+    return merge_results(a, b, a["rule"] + " || per-axis kgrid forms on the merging / pruning back-ends hold the states (hence the norm) "
+                         "of the integer back-end when the grid does not merge; shift.get_grid vs Shp.getGrid || norm search on the real code: random programs of T/Phi/P/E/D/SPOILER/shifts in all "
                          "back-ends (1-D, n-D integer incl. batched vectors, float gridded, G, C), no pruning option, caps never "
                          "exceeded; sm.norm compared before/after each lossless operator per batch element, deviation norm "
                          "non-increasing for E/D/SPOILER, |F0| <= PD throughout (T2 <= 2 T1 in the generator)")
@@ -433,14 +440,16 @@ def run_C07(ctx, proof_ok):
     n6, d6 = c07.grid3_vs_scalar(lib.rng(707), E, budget(ctx.tier, 30, 600))
     n7, d7 = c07.batched_ops_vs_scalar(lib.rng(708), E, budget(ctx.tier, 40, 800))
     n8, d8 = c07.shape_helpers_vs_model(lib.rng(709), budget(ctx.tier, 400, 8000))
+    n9, d9 = c07.adc_phase_reuse(lib.rng(710), E, budget(ctx.tier, 12, 200))
     n4 += n8
-    ctx.violations.extend(d1 + d2 + d3 + d4 + d5 + d6 + d7 + d8)
+    n7 += n9
+    ctx.violations.extend(d1 + d2 + d3 + d4 + d5 + d6 + d7 + d8 + d9)
     return {"evaluations": n1 + n2 + n3 + n4 + n5 + n6 + n7, "distinct_nontrivial": n1 + n2 + n5 + n6 + n7,
             "rule": "metamorphic search on the real code: sequences of T/E/P/Phi/R/PD/S/SPOILER whose parameters are arrays over "
                     "sub-shapes (singleton axes, fewer axes) of a random grid, with identity-named first-order declarations and "
                     "automatic second order; vectorised simulate() (ADC, Z0, Jacobian, Hessian) vs the scalar simulation at EVERY "
                     "index of the broadcast grid, output shape = (nADC,)+getshape; `axes=` vs explicit singleton axes; incompatible "
-                    "shapes must raise; common.broadcast_shapes/broadcastable/set_axes (int and tuple axes)/expand_shapes vs the Lean shape model; three parameters on three "
+                    "shapes must raise; common.broadcast_shapes/broadcastable/set_axes (int and tuple axes)/expand_shapes vs the Lean shape model; one Adc(phase=array) object reused over grids of different rank vs scalar runs times the defining phasor; three parameters on three "
                     "grid axes through `axes=` with first/second derivatives of E/P/T/Phi vs scalar runs; D with an array of "
                     "diffusion times, S with one shift per batch entry (same or lower rank than the grid, equal or different "
                     "patterns, integer and gridded) vs scalar runs of the F0/Z0 signals",
@@ -664,8 +673,10 @@ def run_C09(ctx, proof_ok):
     n3, d3 = c09.sequence_object_history(lib.rng(909), E, budget(ctx.tier, 25, 500))
     n4, d4 = c09.nested_program_history(lib.rng(910), E, budget(ctx.tier, 40, 800))
     n5, d5, _ = simc.search_snapshots(lib.rng(911), E, budget(ctx.tier, 60, 1200))
-    ctx.violations.extend(d1 + d2 + d3 + d4 + d5)
-    n1 = n1 + n3 + n4 + n5
+    import stage
+    n6, _, d6 = stage.continued(lib.rng(912), E, budget(ctx.tier, 30, 600))  # init carrying partials: untouched, repeatable
+    ctx.violations.extend(d1 + d2 + d3 + d4 + d5 + d6)
+    n1 = n1 + n3 + n4 + n5 + n6
     return {"evaluations": n1 + n2, "distinct_nontrivial": n1,
             "rule": "random histories (length <= 25 quick / 60 thorough) of apply(op, handle, inplace) over 16 operator kinds (incl. "
                     "differential declarations with partial derivatives, 1-D / n-D / float shifts, PD, SPOILER, System, D, C, "
@@ -778,9 +789,16 @@ def run_C02(ctx, proof_ok):
     ctx.violations.extend(d2)
     res["evaluations"] += n2
     res["distribution"]["vector_fd_cases"] = n2
+    import stage
+    n3, d3, _ = stage.continued(lib.rng(203), epg(), budget(ctx.tier, 40, 800))
+    ctx.violations.extend(d3)
+    res["evaluations"] += n3
+    res["distribution"]["continued_cases"] = n3
     res["rule"] += " || vectorised: E parameters as arrays on different grid axes (each with its own number of axes), declarations as " \
                    "list / True / alias / coefficient map: Jacobian columns of F0 and Z0 vs central finite differences of the plain " \
-                   "vectorised simulation"
+                   "vectorised simulation || continued simulations: a head applied by hand, simulate(tail, init=<state matrix carrying " \
+                   "partials>, none / equilibrium= / max_nstate= / both): Jacobian vs central finite differences of the same two-stage " \
+                   "computation without differentiation"
     return res
 
 
